@@ -108,12 +108,16 @@ class State:
         self.heap: dict[int, object] = {}
         self.frames: list[Frame] = []
         self.counters: dict[str, int] = {}
+        self.globals_objs: dict[str, object] = {}  # module-level containers that functions change: one object per state
+        self.shadow: dict = {}  # (descriptor of an unknown container, descriptor of a key) -> value stored there on this path
 
     def clone(self):
         s = State()
         s.heap = {k: v.clone() for k, v in self.heap.items()}
         s.frames = [f.clone() for f in self.frames]
         s.counters = dict(self.counters)
+        s.globals_objs = dict(self.globals_objs)
+        s.shadow = dict(self.shadow)
         return s
 
     def fresh(self, prefix):
@@ -356,6 +360,8 @@ class Interp:
         if isinstance(v, LinV):
             if F.lin_is_const(v.lin):
                 return ("const", bool(v.lin[1]))
+            if len(v.lin[0]) == 1 and v.lin[1] == 0 and v.lin[0][0][1] in (1, -1) and isinstance(v.lin[0][0][0], tuple) and v.lin[0][0][0][:1] == ("len",):
+                return ("not", ("empty", v.lin[0][0][0][1]))  # a length is non-zero iff the thing is not empty
             return ("nonzero", v.lin)
         if isinstance(v, TupleV):
             return ("const", bool(v.items))
@@ -372,6 +378,9 @@ class Interp:
                     return PTRUE
                 if not o.each and not o.sym:
                     return PFALSE
+                if len(o.each) == 1 and not o.sym and o.each[0][3] == PTRUE and isinstance(o.each[0][2], tuple) and o.each[0][2][:1] == ("members",):
+                    # one entry per member of a family: empty exactly when the family is (the key len() of it uses as well)
+                    return ("not", ("empty", o.each[0][2][1]))
                 return ("not", ("empty", ("dict", v.oid)))
             return PTRUE
         if isinstance(v, ElemV):
@@ -482,6 +491,69 @@ class Interp:
         self.__dict__.setdefault("_imported_cache", {})[key] = frozenset(imported)
         return cache[key]
 
+    def _global_mutated(self, mod: str, attr: str) -> bool:
+        """Is the module-level name changed in place by some function of its module (item store / delete, a mutating method,
+        an augmented assignment)?"""
+        cache = self.__dict__.setdefault("_gmut_cache", {})
+        key = (mod, attr)
+        if key not in cache:
+            found = False
+            MUT = ("append", "add", "update", "setdefault", "pop", "popitem", "clear", "extend", "insert", "remove", "discard", "sort")
+            for fi in self.prog.functions.values():
+                if fi.module != mod or found:
+                    continue
+                for n in ast.walk(fi.node):
+                    tgt = None
+                    if isinstance(n, ast.Subscript) and isinstance(n.ctx, (ast.Store, ast.Del)):
+                        tgt = n.value
+                    elif isinstance(n, ast.Call) and isinstance(n.func, ast.Attribute) and n.func.attr in MUT:
+                        tgt = n.func.value
+                    elif isinstance(n, ast.AugAssign):
+                        tgt = n.target
+                    if isinstance(tgt, ast.Name) and tgt.id == attr:
+                        if self._pure_memo(fi, attr):
+                            continue  # the cache of a pure function of its key: reading it is the same as computing anew
+                        found = True
+                        break
+            cache[key] = found
+        return cache[key]
+
+    @staticmethod
+    def _pure_memo(fi, attr) -> bool:
+        """Is ``fi`` exactly  def f(k): v = G.get(k); if v is None: v = E(k); G[k] = v; return v  with E built from k and
+        names that are not assigned in the function (an external constructor applied to the key)?  Then G only ever maps a
+        key to E(key), and a hit returns what a miss computes."""
+        a = fi.node.args
+        params = [x.arg for x in a.posonlyargs + a.args]
+        body = [st for st in fi.node.body if not (isinstance(st, ast.Expr) and isinstance(st.value, ast.Constant))]
+        if len(params) != 1 or a.vararg or a.kwarg or a.kwonlyargs or len(body) != 3:
+            return False
+        k = params[0]
+        s1, s2, s3 = body
+        if not (isinstance(s1, ast.Assign) and len(s1.targets) == 1 and isinstance(s1.targets[0], ast.Name)):
+            return False
+        v = s1.targets[0].id
+        c = s1.value
+        if not (isinstance(c, ast.Call) and isinstance(c.func, ast.Attribute) and c.func.attr == "get" and isinstance(c.func.value, ast.Name) and c.func.value.id == attr
+                and len(c.args) == 1 and isinstance(c.args[0], ast.Name) and c.args[0].id == k and not c.keywords):
+            return False
+        t = s2.test if isinstance(s2, ast.If) else None
+        if not (isinstance(t, ast.Compare) and isinstance(t.left, ast.Name) and t.left.id == v and len(t.ops) == 1 and isinstance(t.ops[0], ast.Is)
+                and isinstance(t.comparators[0], ast.Constant) and t.comparators[0].value is None and not s2.orelse and len(s2.body) == 2):
+            return False
+        b1, b2 = s2.body
+        if not (isinstance(b1, ast.Assign) and len(b1.targets) == 1 and isinstance(b1.targets[0], ast.Name) and b1.targets[0].id == v and isinstance(b1.value, ast.Call)):
+            return False
+        for n in ast.walk(b1.value):
+            if isinstance(n, ast.Name) and n.id in (v, attr):
+                return False
+            if isinstance(n, (ast.Lambda, ast.Await, ast.Yield, ast.NamedExpr)):
+                return False
+        if not (isinstance(b2, ast.Assign) and len(b2.targets) == 1 and isinstance(b2.targets[0], ast.Subscript) and isinstance(b2.targets[0].value, ast.Name)
+                and b2.targets[0].value.id == attr and isinstance(b2.targets[0].slice, ast.Name) and b2.targets[0].slice.id == k and isinstance(b2.value, ast.Name) and b2.value.id == v):
+            return False
+        return isinstance(s3, ast.Return) and isinstance(s3.value, ast.Name) and s3.value.id == v
+
     def global_value(self, dotted: str, module: str, name: str):
         if dotted in self.prog.functions:
             return FuncV(dotted)
@@ -492,6 +564,15 @@ class Interp:
         mod, _, attr = dotted.rpartition(".")
         if mod in self.prog.modules and attr in self.prog.modules[mod].globals_:
             gnode = self.prog.modules[mod].globals_[attr]
+            if isinstance(gnode, (ast.Dict, ast.List, ast.Set, ast.Call)) and self._global_mutated(mod, attr):
+                # a module-level container that functions of the module change: state that outlives every call.  It is one
+                # object (what a path stores it reads back) and holds whatever earlier calls left in it.
+                if dotted not in self.state.globals_objs:
+                    if isinstance(gnode, (ast.List, ast.Set)):
+                        self.state.globals_objs[dotted] = self.alloc(HList([("sym", ("global", dotted))], is_set=isinstance(gnode, ast.Set)))
+                    else:
+                        self.state.globals_objs[dotted] = self.alloc(HDict(sym=("global", dotted)))
+                return self.state.globals_objs[dotted]
             # module-level constants and simple aliases are evaluated in a scratch frame of that module
             if isinstance(gnode, (ast.Constant, ast.Name, ast.Attribute, ast.List, ast.Tuple, ast.Dict, ast.Set)):
                 self.state.frames.append(Frame(None, mod, None, fid=self.state.fresh("fid")))
@@ -650,6 +731,18 @@ class Interp:
         return self.binop(type(node.op).__name__, a, b, node)
 
     def binop(self, op, a, b, node):
+        if op in ("Div", "FloorDiv", "Mod") and not (isinstance(a, Const) and isinstance(a.value, str)):
+            # a divisor that may be zero: the division raises there (a divisor the path has already found non-zero - the
+            # length of something it found non-empty - does not)
+            zero = None
+            if isinstance(b, Const) and isinstance(b.value, (int, float)) and not isinstance(b.value, bool):
+                zero = ("const", b.value == 0)
+            elif isinstance(b, LinV) or (isinstance(b, Sym) and b.hint in ("int", "float", "")):
+                # "is zero" is the negation of the number's truthiness: the key a guard `if n` / `if xs` in front of the
+                # division has decided
+                zero = pred_not(self.pred_of(b))
+            if zero is not None and zero[0] != "formula" and self.truth(PredV(zero) if zero[0] != "const" else Const(zero[1])):
+                raise RaiseSig(ExcV("ZeroDivisionError", ("divisor", desc(b))), node)
         if isinstance(a, Const) and isinstance(b, Const):
             try:
                 x, y = a.value, b.value
@@ -1008,6 +1101,8 @@ class Interp:
                 pass
         if isinstance(container, ElemV):
             return ("in", desc(item), container.var)
+        if isinstance(container, Sym) and (desc(container), desc(item)) in self.state.shadow:
+            return PTRUE
         return ("in", desc(item), desc(container))
 
     def eval_Attribute(self, node):
@@ -1161,6 +1256,8 @@ class Interp:
             return v
         if isinstance(v, ClassV):
             return v
+        if isinstance(v, Sym) and (desc(v), desc(idx)) in self.state.shadow:
+            return self.state.shadow[(desc(v), desc(idx))]
         self.log("subscript.unknown", node, obj=v, idx=idx)
         return Sym(("item", desc(v), desc(idx)))
 
@@ -1383,7 +1480,11 @@ class Interp:
         return self.comprehension(node, "set")
 
     def eval_GeneratorExp(self, node):
-        return self.comprehension(node, "list")
+        # evaluated where it is written; what it yields can be taken only once (a second loop over it finds nothing)
+        r = self.comprehension(node, "list")
+        if isinstance(r, Ref) and isinstance(self.deref(r), HList):
+            self.deref(r).one_shot = True
+        return r
 
     def eval_DictComp(self, node):
         return self.comprehension(node, "dict")
@@ -1433,6 +1534,11 @@ class Interp:
         if isinstance(v, Ref):
             o = self.deref(v)
             if isinstance(o, HList):
+                if o.one_shot:
+                    if o.consumed:
+                        self.log("generator.exhausted", node, obj=v)
+                        return []
+                    o.consumed = True
                 return list(o.segs)
             if isinstance(o, HDict):
                 return M.dict_view(self, v, o, "keys")
@@ -1742,6 +1848,9 @@ class Interp:
                 o.log.append(("setitem", idx, value))
                 self.log("opaque.setitem", node, obj=obj, key=idx, value=value, typ=o.typ)
                 return
+        if isinstance(obj, Sym) and idx is not None:
+            # a store into a container the path knows nothing else about: what is stored is read back from there
+            self.state.shadow[(desc(obj), desc(idx))] = value
         self.log("setitem.unknown", node, obj=obj, key=idx, value=value)
 
     # ------------------------------------------------------------------ calls
@@ -1970,12 +2079,60 @@ class Interp:
         if isinstance(node.value, ast.Constant):
             return
         if self.is_logging(node.value):
+            self.audit_logging(node.value)
             return
         if isinstance(node.value, ast.GeneratorExp):
             # a generator expression that nobody consumes runs nothing: its body has no effect
             self.log("generator.discarded", node.value)
             return
         self.eval(node.value)
+
+    def audit_logging(self, call):
+        """A log record has no effect on what is analysed, but its arguments are evaluated before the call: a division in
+        them raises like anywhere else.  Only divisions are looked at (under the conditional expressions that guard them);
+        everything else in the record is skipped."""
+        def walk(e):
+            if isinstance(e, ast.IfExp):
+                try:
+                    t = self.truth(self.eval(e.test))
+                except AnalysisError:
+                    return
+                walk(e.body if t else e.orelse)
+            elif isinstance(e, ast.BinOp):
+                walk(e.left)
+                walk(e.right)
+                if isinstance(e.op, (ast.Div, ast.FloorDiv, ast.Mod)):
+                    try:
+                        a, b = self.eval(e.left), self.eval(e.right)
+                    except AnalysisError:
+                        return
+                    if not (isinstance(a, Const) and isinstance(a.value, str)):
+                        try:
+                            self.binop(type(e.op).__name__, a, b, e)
+                        except AnalysisError:
+                            return
+            elif isinstance(e, ast.Dict):
+                for v in e.values:
+                    walk(v)
+            elif isinstance(e, (ast.List, ast.Tuple, ast.Set)):
+                for v in e.elts:
+                    walk(v)
+            elif isinstance(e, ast.Call):
+                for v in e.args:
+                    walk(v)
+                for k in e.keywords:
+                    walk(k.value)
+            elif isinstance(e, ast.JoinedStr):
+                for v in e.values:
+                    if isinstance(v, ast.FormattedValue):
+                        walk(v.value)
+            elif isinstance(e, ast.Starred):
+                walk(e.value)
+
+        for a in call.args:
+            walk(a)
+        for k in call.keywords:
+            walk(k.value)
 
     def is_logging(self, e):
         """logger.debug/info/... calls are effect free for every property; skip them."""
